@@ -162,7 +162,7 @@ def _skel(style, doc, pos):
 _ALL = [(st, d, p) for st, d in SKELETONS.items() for p in range(len(d) + 1)]
 _Q = set(random.Random(SEED).sample(range(len(_ALL)), 24))
 for _i, (_st, _d, _p) in enumerate(_ALL):
-    ob("C17", "skel.%s.ins%03d" % (_st, _p), {"e0": BOOL, "e1": BOOL, "c": CP}, tier="quick" if _i in _Q else "thorough", T=150,
+    ob("C17", "skel.%s.ins%03d" % (_st, _p), {"e0": BOOL, "e1": BOOL, "c": CP}, tier="quick" if _i in _Q else "thorough", T=300,
        funcs=["cdd.shared.docstring_parsers.parse_docstring"] + FUNCS, assumes=[STUB_DOC, ADHOC_SHIMS_DOC],
        bound="%s skeleton with ANY code point inserted at offset %d; eval outcome nondeterministic" % (_st, _p))(_skel(_st, _d, _p))
 
